@@ -800,7 +800,8 @@ class Zone(dns.transaction.TransactionManager):
         if self.relativize:
             name = dns.name.empty
         else:
-            assert self.origin is not None
+            if self.origin is None:
+                raise UnknownOrigin
             name = self.origin
         if self.get_rdataset(name, dns.rdatatype.SOA) is None:
             raise NoSOA
